@@ -88,8 +88,28 @@ func run(op, arg string) string {
 	return out
 }
 
+// label <label hex> <scope entries, outermost first; "-" = unlabelled>…  ->  some <depth> | none
+func labelOp(f []string) string {
+	lab := string(vh.UnHex(f[1]))
+	var scope []string
+	for _, w := range f[2:] {
+		if w == "-" {
+			scope = append(scope, "")
+		} else {
+			scope = append(scope, string(vh.UnHex(w)))
+		}
+	}
+	if idx, ok := watutil.VerifC04FindLabel(scope, lab); ok {
+		return fmt.Sprintf("some %d", idx)
+	}
+	return "none"
+}
+
 func main() {
 	vh.Loop(func(f []string, line string) string {
+		if len(f) >= 2 && f[0] == "label" {
+			return labelOp(f)
+		}
 		if len(f) != 2 {
 			return "st=read-error detail=" + hx([]byte("bad op"))
 		}
